@@ -268,6 +268,9 @@ func (c *checker) trCase() {
 		c.rep.Violate("C38/tr/panic", key, map[string]any{"panic": fmt.Sprint(p)})
 		return
 	}
+	if nontrivial && len(src) > 4 && len(from.list) > 1 && c.rep.WantSample() {
+		c.rep.Sample(map[string]any{"call": key, "result": fmt.Sprintf("%q", got), "reference": fmt.Sprintf("%q", want)})
+	}
 	if got != want {
 		cl := "tr/map-wrong"
 		switch {
@@ -340,6 +343,10 @@ func (c *checker) caseCase() {
 	}
 	if want == 0 {
 		c.rep.Count("case_equal_ignoring_case", 1)
+	}
+	if len(s) > 3 && s != t && c.rep.WantSample() {
+		c.rep.Sample(map[string]any{"call": fmt.Sprintf("str.CmpLower(%q, %q), str.ToLower(%q)", s, t, s),
+			"result": fmt.Sprintf("%d, %q", str.CmpLower(s, t), str.ToLower(s)), "reference": fmt.Sprintf("%d, %q", want, refLower(s))})
 	}
 	if got := str.EqualCI(s, t); got != (want == 0) {
 		c.fail("str/equalci-wrong", fmt.Sprintf("str.EqualCI(%q, %q)", s, t), got, want == 0)
